@@ -225,6 +225,7 @@ def run(ctx, tier, seed, shard, nshards):
     if shard == 0:
         directed(ctx)
         scope_cases(ctx)
+        condition_kinds(ctx)
 
 
 def directed(ctx, only=None):
@@ -390,6 +391,80 @@ def scope_cases(ctx, only=None):
                          label, want_text, " and the lines %r" % want_lines if want_lines else "", got[1]))
 
 
+def condition_kinds(ctx, only=None):
+    """The condition is any callable: a named function, a functools.partial, an instance with __call__, a bound method.
+    Evaluated to a falsy value it surfaces as the violation (the message names the condition somehow and lists the
+    argument values; nothing address-dependent so that it is the same in every run)."""
+    import functools
+    import re
+
+    import icontract
+
+    def check(x, limit):
+        return x < limit
+
+    class Checker:
+        def __call__(self, x):
+            return x < 3
+
+        def method(self, x):
+            return x < 3
+
+    class SelfChecker:
+        def __call__(self, self_=None, **kw):
+            return False
+
+    kinds = {"named function": lambda: (lambda f: f)(functools.wraps(check)(lambda x: check(x, 3))) if False else _named_check,
+             "functools.partial": lambda: functools.partial(check, limit=3),
+             "partial of a partial": lambda: functools.partial(functools.partial(check), limit=3),
+             "callable instance": lambda: Checker(), "bound method": lambda: Checker().method}
+    for kname, mk in kinds.items():
+        for role in ("require", "ensure"):
+            for is_async in (False, True):
+                if only and only != [kname, role, is_async]:
+                    continue
+                cond = mk()
+                if role == "ensure":
+                    # the postcondition looks at the argument as well: same callable, same parameter name
+                    deco = icontract.ensure(cond)
+                else:
+                    deco = icontract.require(cond)
+                if is_async:
+                    async def f(x):
+                        return x
+                else:
+                    def f(x):
+                        return x
+                outs = []
+                for _ in range(2):
+                    try:
+                        g = deco(f) if not outs else g
+                        r = g(5)
+                        if is_async:
+                            r = RUN_drive(r)
+                        outs.append(("ret", r))
+                    except icontract.ViolationError as e:
+                        outs.append(("violation", str(e)))
+                    except BaseException as e:  # noqa
+                        outs.append(("exc", type(e).__name__, str(e)[:120]))
+                got = outs[0]
+                label = "%s as the condition of %s on %s function" % (kname, role, "an async" if is_async else "a")
+                ctx.case(["condition-kind", kname, role, is_async], kname != "named function", sample={"directed": label, "outcome": list(got)[:2]})
+                ctx.count("directed:condition-kinds")
+                if got[0] != "violation":
+                    ctx.fail("condition-kind|%s|%s" % (kname, got[1] if got[0] == "exc" else got[0]),
+                             {"condition_kind": [kname, role, is_async]},
+                             "%s: the condition returns False for x=5, so the caller must get the ViolationError; got %r" % (label, got))
+                elif "x was 5" not in got[1] or re.search(r"0x[0-9a-f]{6,}", got[1]) or outs[1] != outs[0]:
+                    ctx.fail("condition-kind|%s|message" % kname, {"condition_kind": [kname, role, is_async]},
+                             "%s: the message must list `x was 5`, carry no object address and be the same on the next "
+                             "violation; got %r then %r" % (label, got[1], outs[1]))
+
+
+def _named_check(x):
+    return x < 3
+
+
 def RUN_drive(coro):
     try:
         coro.send(None)
@@ -400,6 +475,11 @@ def RUN_drive(coro):
 
 
 def replay(ctx, case):
+    if case.get("condition_kind"):
+        before = ctx.evaluations
+        condition_kinds(ctx, only=case["condition_kind"])
+        ctx.evaluations = before + 1
+        return
     if case.get("scope_case"):
         before = ctx.evaluations
         scope_cases(ctx, only=case["scope_case"])
